@@ -81,13 +81,28 @@ type step struct {
 	Img  string `json:"img"`
 }
 
+// env is the environment of the runs, which the abstract scenario does not look at.
+type env struct {
+	Page    int    `json:"page"`    // page size of tag / repository listings (0: one page)
+	NoDig   string `json:"nodig"`   // registries that omit Docker-Content-Digest: "" | src | tgt | both
+	Mount   bool   `json:"mount"`   // registries support cross repository blob mounts
+	PostPut bool   `json:"postput"` // registries support the single POST blob upload
+	Cache   bool   `json:"cache"`   // defaults.cacheCount / cacheTime set
+	Chunk   bool   `json:"chunk"`   // creds blobChunk / blobMax force chunked blob uploads
+	Direct  bool   `json:"direct"`  // registries named by 127.0.0.1:port instead of alias + hostname
+	Verb    string `json:"verb"`    // -v
+	JSON    bool   `json:"json"`    // --logopt json
+	Stdin   bool   `json:"stdin"`   // --config - (configuration on stdin)
+	RL      bool   `json:"rl"`      // source sends RateLimit headers, defaults.ratelimit.min set (not exceeded)
+}
+
 type scenario struct {
 	ID    string          `json:"id"`
 	Conf  conf            `json:"conf"`
 	Src   [][]string      `json:"src"` // [repo, tag, img]
 	Tgt   [][]string      `json:"tgt"`
 	Steps []step          `json:"steps"`
-	Page  int             `json:"page"` // page size of tag / repository listings of the model registries (0: one page)
+	Env   env             `json:"env"`
 	Raw   json.RawMessage `json:"-"`
 }
 
@@ -151,6 +166,9 @@ func buildUniverse() *universe {
 	u := &universe{img: map[string]*image{}, byDig: map[string]string{}}
 	add := func(im *image) {
 		im.digest = dig(im.body)
+		if im.name == "A5" { // an image the source registry knows by a sha512 digest
+			im.digest = simreg.Digest("sha512", im.body)
+		}
 		u.img[im.name] = im
 		u.byDig[im.digest] = im.name
 	}
@@ -190,6 +208,18 @@ func buildUniverse() *universe {
 	single("A", false, "amd64", "L0", "LA")
 	single("B", true, "amd64", "L0", "LB")
 	single("C", false, "amd64", "LC")
+	single("H", false, "amd64", "LH1", "LH2")
+	single("A5", false, "amd64", "L0", "LA5")
+	// D: like an OCI image, but the manifest body carries no mediaType field
+	{
+		cfg, _ := json.Marshal(map[string]any{"architecture": "amd64", "os": "linux", "config": map[string]any{"Labels": map[string]string{"img": "D"}},
+			"rootfs": map[string]any{"type": "layers", "diff_ids": []string{}}})
+		l := blob("layer-LD", 640)
+		im := &image{name: "D", mt: mtOCIMan, blobs: [][]byte{cfg, l}}
+		im.body, _ = json.Marshal(map[string]any{"schemaVersion": 2,
+			"config": desc{MediaType: mtOCIConfig, Digest: dig(cfg), Size: len(cfg)}, "layers": []desc{{MediaType: mtOCILayer, Digest: dig(l), Size: len(l)}}})
+		add(im)
+	}
 	single("Xa", false, "amd64", "L0", "LXa")
 	single("Xb", false, "arm64", "LXb")
 	list("X", false, "Xa", "Xb")
@@ -227,23 +257,38 @@ func (u *universe) abs(tag string) string {
 	return strings.ReplaceAll(tag, u.digTag, "dtA")
 }
 
-// put stores the image with everything it references in the repository (no tag).
-func (u *universe) put(h *simreg.Host, repo, name string) string {
+// put stores the image with everything it references in the repository (no tag).  holed: image H
+// is stored without its last layer (what target side repositories hold).
+func (u *universe) put(h *simreg.Host, repo, name string, holed bool) string {
 	im := u.img[name]
 	if im == nil {
 		fatal("unknown image %q", name)
 	}
 	for _, c := range im.children {
-		u.put(h, repo, c)
+		u.put(h, repo, c, holed)
 	}
-	for _, b := range im.blobs {
+	for i, b := range im.blobs {
+		if holed && name == "H" && i == len(im.blobs)-1 {
+			continue
+		}
 		h.PutBlob(repo, b)
+	}
+	if strings.HasPrefix(im.digest, "sha512:") {
+		h.Repo(repo)
+		h.Lock()
+		h.Repos[repo].Manifests[im.digest] = simreg.Manifest{MediaType: im.mt, Body: append([]byte(nil), im.body...)}
+		h.Unlock()
+		return im.digest
 	}
 	return h.PutManifest(repo, "", im.mt, im.body)
 }
 
+func targetSide(h *simreg.Host, repo string) bool {
+	return h.Name != "src" || strings.HasPrefix(repo, "mirror/")
+}
+
 func (u *universe) setTag(h *simreg.Host, repo, tag, name string) {
-	d := u.put(h, repo, name)
+	d := u.put(h, repo, name, targetSide(h, repo))
 	h.Lock()
 	h.Repos[repo].Tags[u.conc(tag)] = d
 	h.Unlock()
@@ -269,6 +314,9 @@ func (u *universe) table() [][]string {
 		if err := json.Unmarshal(im.body, &m); err != nil {
 			fatal("universe: %v", err)
 		}
+		if m.MediaType == "" {
+			m.MediaType = im.mt // no mediaType field in the body: what the registry announces
+		}
 		row := []string{n, mtShort[m.MediaType], "", ""}
 		for _, c := range m.Manifests {
 			switch c.Platform["architecture"] {
@@ -291,7 +339,8 @@ func (u *universe) table() [][]string {
 // layer must be stored there with the bytes its digest and size announce.  Host mutex held.
 func complete(r *simreg.Repo, d string, depth int) bool {
 	m, ok := r.Manifests[d]
-	if !ok || dig(m.Body) != d || depth > 4 {
+	alg, _, _ := strings.Cut(d, ":")
+	if !ok || simreg.Digest(alg, m.Body) != d || depth > 4 {
 		return false
 	}
 	var f struct {
@@ -425,9 +474,10 @@ func lost(before, after map[string]*simreg.Host) [][]any {
 // ---------------------------------------------------------------------------
 
 type hostHandler struct {
-	net    *simreg.Net
-	name   string
-	jitter *jitter
+	net       *simreg.Net
+	name      string
+	jitter    *jitter
+	rateLimit bool // announce a (not exceeded) pull rate limit on manifest replies, like Docker Hub
 }
 
 // jitter delays requests by a few hundred microseconds, as a fixed function of the scenario and
@@ -464,6 +514,10 @@ func (hh hostHandler) ServeHTTP(w http.ResponseWriter, r *http.Request) {
 	defer resp.Body.Close()
 	for k, v := range resp.Header {
 		w.Header()[k] = v
+	}
+	if hh.rateLimit && strings.Contains(r.URL.Path, "/manifests/") {
+		w.Header().Set("RateLimit-Limit", "100;w=21600")
+		w.Header().Set("RateLimit-Remaining", "76;w=21600")
 	}
 	w.WriteHeader(resp.StatusCode)
 	_, _ = io.Copy(w, resp.Body)
@@ -560,7 +614,7 @@ var backupTpl = map[string]string{
 
 // optLines renders the options of an entry that the `defaults` section knows too.  explicit: also
 // write the switches that are off and the full default media type list.
-func optLines(e entry, indent string, explicit bool) string {
+func optLines(e entry, indent string, explicit bool, tpl map[string]string) string {
 	var b strings.Builder
 	mts := e.Mts
 	if len(mts) == 0 && explicit {
@@ -573,7 +627,7 @@ func optLines(e entry, indent string, explicit bool) string {
 		}
 	}
 	if e.Backup != "" && e.Backup != "none" {
-		fmt.Fprintf(&b, "%sbackup: %s\n", indent, yq(backupTpl[e.Backup]))
+		fmt.Fprintf(&b, "%sbackup: %s\n", indent, yq(tpl[e.Backup]))
 	}
 	for _, sw := range []struct {
 		k string
@@ -590,19 +644,39 @@ func optLines(e entry, indent string, explicit bool) string {
 // id) picks one of three equivalent spellings of the options that `defaults` can carry:
 // 0 per entry only; 1 hoisted into `defaults` when all entries agree; 2 `defaults` holds other
 // values and every entry overrides all of them explicitly.
-func writeConfig(fn string, c conf, u *universe, addr map[string]string, variant int) {
+func writeConfig(fn string, c conf, u *universe, addr map[string]string, variant int, ev env) {
 	var b strings.Builder
 	b.WriteString("version: 1\ncreds:\n")
+	name := map[string]string{}
 	for _, n := range []string{"src", "tgt", "oth"} {
-		fmt.Fprintf(&b, "  - registry: %s.test\n    hostname: %s\n    tls: disabled\n", n, addr[n])
+		if ev.Direct {
+			name[n] = addr[n]
+			fmt.Fprintf(&b, "  - registry: %s\n    tls: disabled\n", addr[n])
+		} else {
+			name[n] = n + ".test"
+			fmt.Fprintf(&b, "  - registry: %s.test\n    hostname: %s\n    tls: disabled\n", n, addr[n])
+		}
+		if ev.Chunk {
+			b.WriteString("    blobChunk: 256\n    blobMax: 128\n")
+		}
 	}
 	b.WriteString("defaults:\n  skipDockerConfig: true\n")
 	if c.Parallel > 0 {
 		fmt.Fprintf(&b, "  parallel: %d\n", c.Parallel)
 	}
+	if ev.Cache {
+		b.WriteString("  cacheCount: 50\n  cacheTime: 5m\n")
+	}
+	if ev.RL {
+		b.WriteString("  ratelimit:\n    min: 10\n")
+	}
+	tpl := map[string]string{}
+	for k, v := range backupTpl {
+		tpl[k] = strings.ReplaceAll(v, "oth.test", name["oth"])
+	}
 	same, allBackup := true, true
 	for _, e := range c.Entries {
-		if optLines(e, "", true) != optLines(c.Entries[0], "", true) {
+		if optLines(e, "", true, tpl) != optLines(c.Entries[0], "", true, tpl) {
 			same = false
 		}
 		if e.Backup == "" || e.Backup == "none" {
@@ -614,7 +688,7 @@ func writeConfig(fn string, c conf, u *universe, addr map[string]string, variant
 	}
 	switch variant {
 	case 1:
-		b.WriteString(optLines(c.Entries[0], "  ", false))
+		b.WriteString(optLines(c.Entries[0], "  ", false, tpl))
 	case 2:
 		// values no entry uses; every entry overrides them below
 		b.WriteString("  mediaTypes:\n    - application/vnd.example.unused\n")
@@ -649,11 +723,11 @@ func writeConfig(fn string, c conf, u *universe, addr map[string]string, variant
 		}
 		switch e.Type {
 		case "image":
-			fmt.Fprintf(&b, "  - source: src.test/%s:%s\n    target: %s.test/%s:%s\n", e.SRepo, u.conc(e.STag), e.TReg, e.TRepo, u.conc(e.TTag))
+			fmt.Fprintf(&b, "  - source: %s/%s:%s\n    target: %s/%s:%s\n", name["src"], e.SRepo, u.conc(e.STag), name[e.TReg], e.TRepo, u.conc(e.TTag))
 		case "repository":
-			fmt.Fprintf(&b, "  - source: src.test/%s\n    target: %s.test/%s\n", e.SRepo, e.TReg, e.TRepo)
+			fmt.Fprintf(&b, "  - source: %s/%s\n    target: %s/%s\n", name["src"], e.SRepo, name[e.TReg], e.TRepo)
 		case "registry":
-			fmt.Fprintf(&b, "  - source: src.test\n    target: tgt.test\n")
+			fmt.Fprintf(&b, "  - source: %s\n    target: %s\n", name["src"], name["tgt"])
 		default:
 			fatal("entry type %q", e.Type)
 		}
@@ -664,7 +738,7 @@ func writeConfig(fn string, c conf, u *universe, addr map[string]string, variant
 			fmt.Fprintf(&b, "    platform: %s\n", platLong[e.Platform])
 		}
 		if variant != 1 {
-			b.WriteString(optLines(e, "    ", variant == 2))
+			b.WriteString(optLines(e, "    ", variant == 2, tpl))
 		}
 	}
 	if err := os.WriteFile(fn, []byte(b.String()), 0o600); err != nil {
@@ -684,6 +758,7 @@ type recorder struct {
 	reqs   int
 	on     bool
 	shadow map[string]map[string]map[string]string // host -> repo -> tag -> digest, as of the last write seen
+	compl  map[string]map[string]map[string]int    // host -> repo -> tag -> completeness, as of the last write seen
 }
 
 func sortedKeys(m map[string]bool) []string {
@@ -712,7 +787,11 @@ func runScenario(s *scenario, u *universe, regsync, work string, timeout time.Du
 	var servers []*http.Server
 	for _, n := range w.names {
 		feat := simreg.DefaultFeatures()
-		feat.PageSize = s.Page
+		feat.PageSize = s.Env.Page
+		feat.Mount, feat.AnonBlobPOSTPut = s.Env.Mount, s.Env.PostPut
+		if s.Env.NoDig == "both" || s.Env.NoDig == n {
+			feat.HeadDigest = false
+		}
 		h := w.net.AddHost(n, feat)
 		w.hosts[n] = h
 		name := n
@@ -760,6 +839,11 @@ func runScenario(s *scenario, u *universe, regsync, work string, timeout time.Du
 						d = rp.Tags[t]
 					}
 					if d == sh[r][t] {
+						// same manifest: did a blob arrive (or vanish) that changes its completeness?
+						if c := b2i(complete(h.Repos[r], d, 0)); d != "" && c != rec.compl[name][r][t] {
+							rec.compl[name][r][t] = c
+							rec.events = append(rec.events, vtrace.Event{"ev": "compl", "reg": name, "repo": r, "tag": u.abs(t), "complete": c})
+						}
 						continue
 					}
 					ev := vtrace.Event{"ev": "tagput", "reg": name, "repo": r, "tag": u.abs(t), "img": "", "complete": 0}
@@ -769,6 +853,10 @@ func runScenario(s *scenario, u *universe, regsync, work string, timeout time.Du
 							sh[r] = map[string]string{}
 						}
 						sh[r][t] = d
+						if rec.compl[name][r] == nil {
+							rec.compl[name][r] = map[string]int{}
+						}
+						rec.compl[name][r][t] = ev["complete"].(int)
 					} else {
 						delete(sh[r], t)
 					}
@@ -791,7 +879,7 @@ func runScenario(s *scenario, u *universe, regsync, work string, timeout time.Du
 			fatal("listen on loopback: %v", err)
 		}
 		addr[n] = ln.Addr().String()
-		srv := &http.Server{Handler: hostHandler{net: w.net, name: n, jitter: jit}}
+		srv := &http.Server{Handler: hostHandler{net: w.net, name: n, jitter: jit, rateLimit: s.Env.RL && n == "src"}}
 		servers = append(servers, srv)
 		go func() { _ = srv.Serve(ln) }()
 	}
@@ -813,7 +901,7 @@ func runScenario(s *scenario, u *universe, regsync, work string, timeout time.Du
 		}
 	}
 	for r := range w.hosts["src"].Clone().Repos {
-		u.put(w.hosts["src"], r, "R")
+		u.put(w.hosts["src"], r, "R", false)
 	}
 	for _, t := range s.Tgt {
 		u.setTag(w.hosts["tgt"], t[0], t[1], t[2])
@@ -833,7 +921,7 @@ func runScenario(s *scenario, u *universe, regsync, work string, timeout time.Du
 	}
 	cfg := filepath.Join(dir, "regsync.yml")
 	hv := sha256.Sum256([]byte("variant " + s.ID))
-	writeConfig(cfg, s.Conf, u, addr, int(hv[0])%3)
+	writeConfig(cfg, s.Conf, u, addr, int(hv[0])%3, s.Env)
 
 	nrun := 0
 	for _, st := range s.Steps {
@@ -856,25 +944,39 @@ func runScenario(s *scenario, u *universe, regsync, work string, timeout time.Du
 			rec.mu.Lock()
 			rec.events, rec.nwr, rec.nmut, rec.reqs, rec.on = nil, 0, 0, 0, true
 			rec.shadow = map[string]map[string]map[string]string{}
+			rec.compl = map[string]map[string]map[string]int{}
 			for n, h := range rawBefore {
 				rec.shadow[n] = map[string]map[string]string{}
+				rec.compl[n] = map[string]map[string]int{}
 				for r, rp := range h.Repos {
 					rec.shadow[n][r] = map[string]string{}
+					rec.compl[n][r] = map[string]int{}
 					for t, d := range rp.Tags {
 						rec.shadow[n][r][t] = d
+						rec.compl[n][r][t] = b2i(complete(rp, d, 0))
 					}
 				}
 			}
 			rec.mu.Unlock()
-			args := []string{"once", "--config", cfg}
+			cfgArg := cfg
+			if s.Env.Stdin {
+				cfgArg = "-"
+			}
+			args := []string{"once", "--config", cfgArg}
 			switch st.Mode {
 			case "missing":
 				args = append(args, "--missing")
 			case "check":
-				args = []string{"check", "--config", cfg}
+				args = []string{"check", "--config", cfgArg}
 			case "once":
 			default:
 				fatal("run mode %q", st.Mode)
+			}
+			if s.Env.Verb != "" && s.Env.Verb != "info" {
+				args = append(args, "-v", s.Env.Verb)
+			}
+			if s.Env.JSON {
+				args = append(args, "--logopt", "json")
 			}
 			ctx, cancel := context.WithTimeout(context.Background(), timeout)
 			cmd := exec.CommandContext(ctx, regsync, args...)
@@ -883,6 +985,14 @@ func runScenario(s *scenario, u *universe, regsync, work string, timeout time.Du
 			var stderr bytes.Buffer
 			cmd.Stderr = &stderr
 			cmd.Stdout = &stderr
+			if s.Env.Stdin {
+				fh, err := os.Open(cfg)
+				if err != nil {
+					fatal("%v", err)
+				}
+				defer fh.Close()
+				cmd.Stdin = fh
+			}
 			err := cmd.Run()
 			timedOut := ctx.Err() != nil
 			cancel()
